@@ -112,8 +112,10 @@ def run_validate(image):
 
 
 def judge_validate(scn):
-    """scn: blocks, payload_len, fault (None | truncate | substitute)"""
-    base = refmodel.block(posbytes(0, scn["payload_len"]))
+    """scn: blocks, payload_len, fault (None | truncate | substitute); content 'pos' (default) or 'x40'
+    (payload made of 0x40 bytes, indistinguishable from trailers and fill)"""
+    data = posbytes(0, scn["payload_len"]) if scn.get("content", "pos") == "pos" else b"\x40" * scn["payload_len"]
+    base = refmodel.block(data)
     fault = scn.get("fault")
     image = apply_fault(base, fault) if fault else base
     for f2 in scn.get("faults2") or []:
@@ -308,15 +310,17 @@ def run_task(task):
         B = task["blocks"]
         plen = B * 1012 - 7
         total = B * 1014
-        for k in range(0, total + 1):
-            scn = {"kind": "unblock_validate", "blocks": B, "payload_len": plen, "fault": {"kind": "truncate", "at": k}}
-            fails = judge_validate(scn)
-            part["evals"] += 1
-            c["fault:truncate"] += 1
-            if 0 < k < total:
-                part["nontrivial"] += 1
-            for fl in fails:
-                _fail(part, fl, scn)
+        for content in (("pos", "x40") if B <= 4 else ("pos",)):
+            for k in range(0, total + 1):
+                scn = {"kind": "unblock_validate", "blocks": B, "payload_len": plen, "content": content,
+                       "fault": {"kind": "truncate", "at": k}}
+                fails = judge_validate(scn)
+                part["evals"] += 1
+                c["fault:truncate"] += 1
+                if 0 < k < total:
+                    part["nontrivial"] += 1
+                for fl in fails:
+                    _fail(part, fl, scn)
         for b in range(B):
             for off in (b * 1014 + 1012, b * 1014 + 1013):
                 for val in (range(256) if B <= 4 else (0x00, 0x41, 0x40, 0xFF)):
